@@ -339,6 +339,11 @@ class Struct(metaclass=MetaStruct):
             self._buffer.update_from_xbuffer(
                 self._offset, value._buffer, value._offset, value._size
             )
+            # the dynamic fields may divide the space differently now: this
+            # handle must not keep the field offsets it cached before
+            self._offsets = self._from_buffer(
+                self._buffer, self._offset
+            )._offsets
         else:
             for field in self._fields:
                 if field.name in value:
